@@ -127,9 +127,23 @@ def SimB (n : Nat) : Prop :=
 /-- simple complex expressions (everything `compile_cexpr` handles) -/
 def SimV (n : Nat) : Prop :=
   ∀ (c : CExpr) (η : Hp) (Γ : Ctx) (K : KCtx) (ρ : Sem.Env) (w : World) (gρ : GEnv) (gw : GWorld) (Bad : List String),
-    isCtl c = false → fragC env file G Γ K c = true → EnvRel env η Γ ρ gρ → KRel K ρ → WRel env η w gw →
+    isCtl c = false → isGoC c = false → fragC env file G Γ K c = true → EnvRel env η Γ ρ gρ → KRel K ρ → WRel env η w gw →
     (∀ y, y ∈ keys gρ → ¬ y ∈ Bad) → FCtx file G Bad η → (∀ x, x ∈ calleesC (Γ.map (·.1)) c → x ∈ Bad) →
     ConclV env η F (compileCExpr env c) gρ gw c.annTy (pureC c) (mayPanicC c) w (Sem.eval n P ρ w c.toExpr)
+
+/-- the statement `go f(env)`: the `Sem` run of `go e` (value unit) against the Go statement, which leaves the Go
+    environment as it is -/
+def ConclG (η : Hp) (s : GStmt) (gρ : GEnv) (gw : GWorld) : Res Val → Prop
+  | .ok v w' => v = .unit ∧ ∃ η', η.le η' ∧ ∃ gw', StmtS F gρ gw s (.ok (gρ, .normal) gw') ∧ WRel env η' w' gw'
+  | .fail (.panic k) w' => ∃ η', η.le η' ∧ ∃ gw', StmtS F gρ gw s (.fail (.panic k) gw') ∧ WRel env η' w' gw'
+  | _ => True
+
+/-- `go e` as a statement (`compile_go`) -/
+def SimG (n : Nat) : Prop :=
+  ∀ (e : Imm) (ty : Ty) (η : Hp) (Γ : Ctx) (K : KCtx) (ρ : Sem.Env) (w : World) (gρ : GEnv) (gw : GWorld) (Bad : List String),
+    fragC env file G Γ K (.go e ty) = true → EnvRel env η Γ ρ gρ → WRel env η w gw →
+    (∀ y, y ∈ keys gρ → ¬ y ∈ Bad) → FCtx file G Bad η → (∀ x, x ∈ calleesC (Γ.map (·.1)) (.go e ty) → x ∈ Bad) →
+    ConclG env F η (compileGo env e) gρ gw (Sem.eval n P ρ w (CExpr.go e ty).toExpr)
 
 /-- `AExpr`s in either statement lowering -/
 def SimA (n : Nat) : Prop :=
@@ -228,6 +242,7 @@ structure SimAt (n : Nat) : Prop where
   me : SimME env file G P F n
   mv : SimMV env file G P F n
   mu : SimMU env file G P F n
+  g : SimG env file G P F n
 end
 
 end Goml.GoComp
